@@ -1,6 +1,8 @@
 package props
 
 import (
+	"encoding/hex"
+	"encoding/json"
 	"fmt"
 	"os"
 	"path/filepath"
@@ -20,6 +22,9 @@ type c18Job struct {
 	Mode  string `json:"mode"` // truncate | mutate
 	Pos   int    `json:"pos"`
 	Value int    `json:"value"`
+	// Orig: the undamaged file's bytes (hex), recorded with a violation: block summaries list the columns in map order,
+	// so a rebuilt base segment may lay the same information out differently; the replay installs these bytes first
+	Orig string `json:"orig,omitempty"`
 }
 
 type c18Base struct {
@@ -128,6 +133,11 @@ func (b *c18Base) run(j *c18Job, rep *kernel.Report) (*Fail, error) {
 	dir := kernel.NewScratchDir("c18")
 	defer os.RemoveAll(dir)
 	orig := b.fs.Files[j.File]
+	if j.Orig != "" {
+		if o, err := hex.DecodeString(j.Orig); err == nil {
+			orig = o
+		}
+	}
 	mut := append([]byte{}, orig...)
 	if j.Mode == "truncate" {
 		mut = mut[:j.Pos]
@@ -378,6 +388,7 @@ func C18() int {
 					rep.Unreproduced(f.FP + ": " + trunc(f.What, 300))
 					continue
 				}
+				j.Orig = hex.EncodeToString(base.fs.Files[j.File])
 				rep.Violation(f.FP, f.What, j)
 			}
 			done <- true
@@ -395,4 +406,32 @@ func C18() int {
 
 func init() {
 	Registry["C18"] = C18
+	Replayers["C18"] = func(doc json.RawMessage) int {
+		var j c18Job
+		if err := json.Unmarshal(doc, &j); err != nil {
+			fmt.Println("HARNESS-ERROR", err)
+			return 2
+		}
+		rep := kernel.NewReport("C18", "fault_enumeration")
+		base, err := c18Build(rep)
+		if err != nil {
+			fmt.Println("HARNESS-ERROR building the base segment:", err)
+			return 2
+		}
+		if _, ok := base.fs.Files[j.File]; !ok {
+			fmt.Println("HARNESS-ERROR the base segment has no file", j.File)
+			return 2
+		}
+		f, err := base.run(&j, rep)
+		if err != nil {
+			fmt.Println("HARNESS-ERROR", err)
+			return 2
+		}
+		if f == nil {
+			fmt.Println("replay: property held")
+			return 0
+		}
+		fmt.Printf("replay: %s\n  %s\n", f.FP, f.What)
+		return 1
+	}
 }
